@@ -11,6 +11,7 @@ GROUP = {
     "stub_sets": ["file"],
     "kani_args": ["-Z", "stubbing"],
     # modules of the harness crate whose items the generated playback tests need in scope
-    "modules": ["hfs", "c10_write", "c10_batch", "c11_retention"],
-    "cbmc_args": [(r".", ["--unwindset", _IOERR_DROP + ":1"])],
+    "modules": ["hfs", "c10_write", "c10_batch", "c11_retention", "c11_member"],
+    # only harnesses whose goto program contains the symbol (CBMC rejects an unknown loop identifier)
+    "cbmc_args": [(r"_(write|open|retention)_", ["--unwindset", _IOERR_DROP + ":1"])],
 }
